@@ -7,6 +7,11 @@ from .. import common as C
 from .. import impl
 from .. import drex, solver
 
+# S2: the arithmetic kernels of core.py are re-traced from the source on every run and the bridge theorems
+# (lean/Bridge/Drex.lean: traced_f = ModelR.f) are re-checked by the Lean kernel.
+PRE_LEAN = C.s2_trace_core
+EXTRA_LEAN_MODULES = ("Bridge.Drex",)
+
 PARTIAL = [
     "integrated textures: LSODA's error weights are per component and therefore frame dependent, and extract_vars clips entries "
     "to [-1,1] (not rotation covariant when it acts); equality 'within solver tolerance' is validated by paired real runs; the theorems "
